@@ -354,6 +354,15 @@ type opSpec struct {
 	Dev int    `json:"dev,omitempty"`
 }
 
+// roundSpec: how much of a generic topology exists when EstablishRoute() is
+// called at the end of a build round: the first NSw switches, the first NEdges
+// entries of Edges and the first NDevs entries of Devs.
+type roundSpec struct {
+	NSw    int `json:"nsw"`
+	NEdges int `json:"nedges"`
+	NDevs  int `json:"ndevs"`
+}
+
 type topoSpec struct {
 	Shape    string     `json:"shape"`
 	NSw      int        `json:"nsw,omitempty"`   // generic
@@ -363,6 +372,21 @@ type topoSpec struct {
 	Ops      []opSpec   `json:"ops,omitempty"` // pcie, nvlink
 	Dim      [3]int     `json:"dim,omitempty"` // mesh
 	AddRev   bool       `json:"add_rev,omitempty"`
+	// Rounds (generic connector): the network is built in len(Rounds)+1 rounds
+	// on the same connector and network, each ended by EstablishRoute(); the
+	// last round completes the topology. Empty = everything, then one
+	// EstablishRoute().
+	Rounds []roundSpec `json:"rounds,omitempty"`
+}
+
+// prefix is the topology that exists at the end of round rd.
+func (tp topoSpec) prefix(rd roundSpec) topoSpec {
+	out := tp
+	out.NSw = rd.NSw
+	out.Edges = tp.Edges[:rd.NEdges]
+	out.Devs = tp.Devs[:rd.NDevs]
+	out.Rounds = nil
+	return out
 }
 
 // netModel is the harness' own picture of the network that the build calls
@@ -516,6 +540,10 @@ func model(cs connSpec, tp topoSpec) netModel {
 
 // connHolder owns one connector object (kept across the networks of a case).
 type connHolder struct {
+	// afterRound, if set, is called after the EstablishRoute() that ends every
+	// round but the last of a multi-round build, with the network as it is then.
+	afterRound func(round int, partial topoSpec, b *built)
+
 	cs      connSpec
 	reg     *capReg
 	freq    timing.Freq
@@ -593,29 +621,22 @@ func (h *connHolder) build(name string, tp topoSpec) *built {
 	case "generic":
 		c := &h.generic
 		c.NewNetwork(name)
-		for i := 0; i < tp.NSw; i++ {
-			c.AddSwitch()
+		connectDev := func(i int) {
+			d := tp.Devs[i]
+			c.ConnectDevice(d.Sw, ports[i], nc.DeviceToSwitchLinkParameter{
+				DeviceEndParam: nc.LinkEndDeviceParameter{
+					IncomingBufSize: d.EpBuf, OutgoingBufSize: d.EpBuf,
+					NumInputChannel: d.EpCh, NumOutputChannel: d.EpCh,
+				},
+				SwitchEndParam: nc.LinkEndSwitchParameter{
+					IncomingBufSize: d.SwBuf, OutgoingBufSize: d.SwBuf,
+					NumInputChannel: d.SwCh, NumOutputChannel: d.SwCh,
+					Latency: d.Lat,
+				},
+				LinkParam: ideal(h.freq),
+			})
 		}
-		connectDevs := func() {
-			for i, d := range tp.Devs {
-				c.ConnectDevice(d.Sw, ports[i], nc.DeviceToSwitchLinkParameter{
-					DeviceEndParam: nc.LinkEndDeviceParameter{
-						IncomingBufSize: d.EpBuf, OutgoingBufSize: d.EpBuf,
-						NumInputChannel: d.EpCh, NumOutputChannel: d.EpCh,
-					},
-					SwitchEndParam: nc.LinkEndSwitchParameter{
-						IncomingBufSize: d.SwBuf, OutgoingBufSize: d.SwBuf,
-						NumInputChannel: d.SwCh, NumOutputChannel: d.SwCh,
-						Latency: d.Lat,
-					},
-					LinkParam: ideal(h.freq),
-				})
-			}
-		}
-		if tp.DevFirst {
-			connectDevs()
-		}
-		for _, e := range tp.Edges {
+		connectSw := func(e edgeSpec) {
 			c.ConnectSwitches(e.A, e.B, nc.SwitchToSwitchLinkParameter{
 				LeftEndParam: nc.LinkEndSwitchParameter{
 					IncomingBufSize: e.BufA, OutgoingBufSize: e.BufA,
@@ -628,10 +649,38 @@ func (h *connHolder) build(name string, tp topoSpec) *built {
 				LinkParam: ideal(h.freq),
 			})
 		}
-		if !tp.DevFirst {
-			connectDevs()
+		// One round = the new switches, then the new devices and links (devices
+		// first if DevFirst), then EstablishRoute(). Without Rounds this is the
+		// single-shot build: all switches, devices/links, EstablishRoute().
+		rounds := append(append([]roundSpec{}, tp.Rounds...), roundSpec{NSw: tp.NSw, NEdges: len(tp.Edges), NDevs: len(tp.Devs)})
+		var prev roundSpec
+		for r, rd := range rounds {
+			for i := prev.NSw; i < rd.NSw; i++ {
+				c.AddSwitch()
+			}
+			if tp.DevFirst {
+				for i := prev.NDevs; i < rd.NDevs; i++ {
+					connectDev(i)
+				}
+			}
+			for _, e := range tp.Edges[prev.NEdges:rd.NEdges] {
+				connectSw(e)
+			}
+			if !tp.DevFirst {
+				for i := prev.NDevs; i < rd.NDevs; i++ {
+					connectDev(i)
+				}
+			}
+			c.EstablishRoute()
+			if r < len(rounds)-1 && h.afterRound != nil {
+				part := tp.prefix(rd)
+				pb := &built{name: name, model: model(h.cs, part), agents: b.agents[:rd.NDevs]}
+				pb.sw = append(pb.sw, h.reg.switches[sw0:]...)
+				pb.eps = append(pb.eps, h.reg.endpoints[ep0:]...)
+				h.afterRound(r, part, pb)
+			}
+			prev = rd
 		}
-		c.EstablishRoute()
 
 	case "pcie":
 		c := h.pcie
